@@ -498,6 +498,9 @@ fn main() {
     let mut samples = b.samples.clone();
     samples.extend(sink.samples.iter().cloned());
     cov.insert("samples".into(), json!(samples));
+    // the same check against the crate built with all cargo features (std, serialize, unstable)
+    let mut sink = sink;
+    run.all_features_variant(&mut sink);
     let code = run.finish(
         &sink,
         cov,
